@@ -68,4 +68,8 @@ example :
     Rule.wf r = true ∧ Rule.depth r = 3 ∧ (decRule 3 (encRule r)).isSome = true ∧ (decRule 2 (encRule r)).isSome = false := by
   decide +kernel
 
+/-- the behavioural probes of /repo that feed the generated tables this property rests on could all be run
+(a probe that fails leaves its table empty and is named in `Generated.probeFailures`) -/
+theorem codec_probes_ok : ¬ ("ruleClasses" ∈ Generated.probeFailures) ∧ ¬ ("mongoMigration3" ∈ Generated.probeFailures) := by decide
+
 end Vakt.C09
